@@ -390,6 +390,8 @@ def minimise(prop, exe, failure, oracle, ref_case_fn, tier):
     f2, h2, _ = classify(w, exe, case, oracle, ref_case_fn)
     c1 = [x[0] for x in f1]
     c2 = [x[0] for x in f2]
+    if cls == "hang" and not c1 and not c2:
+        return None, None  # merely slow under load: passes when re-run
     if cls not in c1 or cls not in c2 or h1 != h2:
         return None, "case %s: %s not reproducible (got %s / %s, hashes %s / %s)" % (case.key(), cls, c1, c2, h1, h2)
     deadline = time.time() + (120 if tier == "quick" else 420)
